@@ -1,21 +1,12 @@
 (* Statements about the cross-thread free model that are NOT proved (kept as Definitions so that nobody
-   mistakes them for theorems).  Everything else of C02 / C08 / C10conc is proved. *)
+   mistakes them for theorems).  Every theorem of C02 / C08 / C10conc is proved; what is open is only the
+   relation between the boolean checkers and the Prop invariant. *)
 From Coq Require Import NArith List Bool.
-From MiV Require Import Model.TFree Proofs.TFreeInv Proofs.TFreeProofs.
+From MiV Require Import Model.TFree Proofs.TFreeInv.
 Import ListNotations.
 Local Open Scope N_scope.
 
-(* tflist_nonempty_flag, corrected form.  DESIGN.md states "at owner-quiescence a non-empty page thread list
-   implies flag in {NO, NEVER}"; as stated that is false in the model and in the code: a thread that arrives
-   while another one is in the DELAYED_FREEING window pushes directly on the page list, so the flag can also be
-   DELAYED_FREEING.  The correct statement is: a non-empty thread list under MI_USE_DELAYED_FREE only exists
-   while a block of the page is still on a delayed / pending list or the owner is between the flag reset of
-   _mi_free_delayed_block and its collect (InvT of Proofs/TFreeInv.v; it is part of the boolean checker
-   `tfl_b`, evaluated after every step of the simulator, and was never violated). *)
-Definition tflist_nonempty_flag_stmt : Prop :=
-  forall s, reachable s -> exists c, s = Ok c /\ InvT c.
-
-(* the boolean checkers decide the invariant (only the direction used by the tools matters: a state that
-   passes inv_b satisfies Inv) *)
+(* the boolean checkers decide the invariant.  They are used as test oracles (simulator, lockstep replay of
+   real-code states); the theorems do not depend on them. *)
 Definition inv_b_sound_stmt : Prop := forall c, inv_b c = true -> Inv c /\ InvT c.
 Definition inv_b_complete_stmt : Prop := forall c, Inv c -> InvT c -> inv_b c = true.
